@@ -90,6 +90,38 @@ CHECKS.update({
     tech='TLA+ multi-call driver model (interleavings exhaustive) + trace validation of real threaded executions'),
 })
 
+OBJ = 'objects-replay'
+CHECKS.update({
+ 'C09': dict(engine='report-replay', cat='model_checking', ref='DESIGN.md §7 C09',
+    text='ExcerptVM.tla transcribes the four-regime excerpt code, Report.tla defines line/column; TLC (MC_C09) checks the '
+         'acceptance relation (caret under text[index], excerpt on one line) and the line/column counter in every state '
+         'of the (lines before, line length, column, last line) space and emits the expected position; the harness makes '
+         'a real grammar fail / stop at exactly that offset and checks ParseError.position, '
+         'PartialParseError.last_position and both messages, also for bytes input',
+    note='trusted: Report.tla; bound: line length <= 150 (thorough 420), 0/1/3 preceding lines; index within [pos, far] '
+         'is decided by the C01/C08 replays',
+    tech='TLA+ transcription of the excerpt mechanism model-checked against an acceptance relation; states replayed'),
+ 'C14': dict(engine=OBJ, cat='model_checking', ref='DESIGN.md §7 C14',
+    text='TLC (MC_C15, value mode) enumerates all trees of the bounded family and emits the plain value each denotes '
+         '(Objs!Expand); the harness compares real ==, !=, hash on pairs of independently built trees with equality of '
+         'those values, and checks _asdict, _replace, deepcopy, pickle, eval(repr) on every tree and on parsed objects',
+    note='trusted: Objs!Eq as the meaning of ==; bound: trees of depth <= 2 (thorough 3), arities 0..2',
+    tech='TLA+ value model (Objs) enumerated by TLC; operations replayed on real objects'),
+ 'C15': dict(engine=OBJ, cat='model_checking', ref='DESIGN.md §7 C15',
+    text='Walk.tla transcribes the explicit-stack loops of visit and traverse; TLC checks them against the declarative '
+         'Objs!Preorder / Objs!Events for every tree of the family (all CPython sharing kinds of leaves, shared '
+         'sub-structures) and emits the expected sequences; the harness compares list(visit) by identity and '
+         'list(traverse) event by event on real objects; chains of 10^4-10^5 nodes are executed',
+    note='trusted: Objs!Preorder/Events as the stated order; bound: depth <= 2 (thorough 3)',
+    tech='TLA+ mechanism (Walk) refines declarative spec (Objs), TLC-enumerated trees replayed on real objects'),
+ 'C16': dict(engine=OBJ, cat='model_checking', ref='DESIGN.md §7 C16',
+    text='TLC (MC_C15, transform mode) emits result and callback log of the declarative bottom-up rewrite '
+         '(Objs!BottomUp) for every tree x ten callback vectors; the harness runs the real transform with logging '
+         'callbacks and compares result, call order/count, input unchanged, and span metadata of result nodes',
+    note='trusted: Objs!BottomUp; bound: depth <= 2 (thorough 3), 10 callback vectors',
+    tech='TLA+ declarative rewrite enumerated by TLC; behaviours replayed on real objects'),
+})
+
 PENDING = {}
 
 
@@ -124,6 +156,11 @@ def main():
              'kind_free_text': 'spec/Packrat.tla (the _run driver as a state machine) model-checked by TLC; its behaviours '
                                'are replayed into the real driver and traces recorded through the SOURCER_VERIF hook / '
                                'inline-Python probes are validated by TLC against spec/Trace_Packrat.tla'},
+            {'name': OBJ, 'path': 'harness/objcheck.py', 'serves_properties': ['C14', 'C15', 'C16'],
+             'kind_free_text': 'spec/Objs.tla (values with identity) and spec/Walk.tla (explicit-stack machines) enumerated '
+                               'and checked by TLC; trees and expected sequences replayed on real parsed objects'},
+            {'name': 'report-replay', 'path': 'harness/checks/c09.py', 'serves_properties': ['C09'],
+             'kind_free_text': 'spec/ExcerptVM.tla + spec/Report.tla model-checked; every state replayed as a real error'},
         ] + extra.get('engines', []),
         'checks': [],
         'not_applicable': [],
